@@ -407,6 +407,15 @@ func searchRecord(args []string) error {
 				if pre.Depth < 4 {
 					pre.Depth = 4
 				}
+			// the LIMITS of an earlier search on the same Search object: none of them may bind the next one
+			case "limit-nodes":
+				pre.Mode, pre.Nodes, pre.Depth = "nodes", 150, 0
+			case "limit-movetime":
+				pre.Mode, pre.MoveTime, pre.Depth = "movetime", 25, 0
+			case "limit-depth":
+				pre.Depth = 1
+			case "limit-clock":
+				pre.Mode, pre.Time, pre.Inc, pre.MovesToGo, pre.Depth = "clock", 40, 0, 1, 0
 			}
 			var dummy Rec
 			ok = runSearch(s, cap, &pre, &dummy, time.Duration(*wd)*time.Millisecond)
